@@ -4,7 +4,7 @@
    beside the implementation ("src" mode of harness/mdrv.ml), and they are the left-hand sides
    of the refinement theorems (Refine*.v). *)
 From Coq Require Import ZArith NArith List String Bool.
-From Wencry Require Import MiniC MiniCRun.
+From Wencry Require Import Bytes FileModel MiniC MiniCRun.
 From Wencry.Gen Require Src_sha256 Src_sha1 Src_md5 Src_hashmaster Src_aes Src_aesmode Src_base64 Src_iobuffer Src_hashbuffer.
 Import ListNotations.
 Local Open Scope Z_scope.
@@ -164,3 +164,27 @@ Definition src_export (ispadding : bool) (now : Z) (s : state) : sres (list N) :
                   | None => SErr "no stream"
                   end)
   end.
+
+(* the whole sequence of load_buffer calls the pipeline makes over an input (until the first non-FULL result), as the
+   model's load records *)
+Fixpoint src_loads_from (fuel : nat) (ispadding : bool) (s : state) : sres (list load) :=
+  match fuel with
+  | O => SErr "out of fuel"
+  | S f =>
+      match src_load ispadding s with
+      | SErr w => SErr w
+      | SOk (ls, total, _, _, data, s') =>
+          if Z.eqb ls 2 then SOk []
+          else let l := {| ld_data := data; ld_total := Z.to_nat total; ld_final := Z.eqb ls 1 |} in
+               if Z.eqb ls 1 then SOk [l]
+               else match src_loads_from f ispadding s' with SOk r => SOk (l :: r) | SErr w => SErr w end
+      end
+  end.
+Definition src_loads (c : nat) (ispadding : bool) (input : list N) : sres (list load) :=
+  src_loads_from (S (List.length input / (16 * c))) ispadding (iob_state c input).
+
+(* export_buffer on a buffer holding `data` of which the worker consumed `now` blocks, with the given isfinal flag *)
+Definition src_export_on (c : nat) (ispadding : bool) (now : nat) (isfinal : bool) (data : list N) : sres (list N) :=
+  let s := iob_state c [] in
+  let m := mset (mset (mem s) "b" (bytes_object data)) "isfinal" {| o_ty := TBool; o_cells := [if isfinal then 1 else 0] |} in
+  src_export ispadding (Z.of_nat now) (with_mem s m).
